@@ -95,7 +95,7 @@ man = {
     "engines": [{"name": "tlc", "path": "/opt/veriftools/tla/tla2tools.jar", "serves_properties": sorted(CLAIMED),
                  "kind_free_text": "TLC 1.8 explicit-state model checker; used for model checking the TLA+ specification in spec/ and for validating ndjson traces of the implementation against it"}],
     "checks": checks,
-    "notes": "Model-based verification with an explicit TLA+ specification (spec/*.tla, 33 modules). Every check = TLC on MC_* configurations (+ negative models that must be refuted) + traces of the real code validated by TLC (Trace_*.tla, total verdicts) and/or TLC-enumerated behaviours replayed into the real code. ./check selftest demonstrates the binding (corrupted trace fields are rejected with the expected clause). 13 genuine defects were found and repaired by 'fix:' commits in /repo (KNOWN_FINDINGS.json, all status=fixed). seeded/ holds 215 confirmed seeded changes from seven rounds of independent sub-agents plus the reverts of the repairs; all 215 and all reverts are detected by the quick tier of the owning check (scripts/try_seed.sh); first-pass misses and what was strengthened for each are in DESIGN.md 11.5. See DESIGN.md section 11.",
+    "notes": "Model-based verification with an explicit TLA+ specification (spec/*.tla, 33 modules). Every check = TLC on MC_* configurations (+ negative models that must be refuted) + traces of the real code validated by TLC (Trace_*.tla, total verdicts) and/or TLC-enumerated behaviours replayed into the real code. ./check selftest demonstrates the binding (corrupted trace fields are rejected with the expected clause). 14 genuine defects were found and repaired by 'fix:' commits in /repo (KNOWN_FINDINGS.json, all status=fixed). seeded/ holds 215 confirmed seeded changes from seven rounds of independent sub-agents plus the reverts of the repairs; all 215 and all reverts are detected by the quick tier of the owning check (scripts/try_seed.sh); first-pass misses and what was strengthened for each are in DESIGN.md 11.5. See DESIGN.md section 11.",
     "not_applicable": na,
 }
 json.dump(man, open(os.path.join(HERE, "MANIFEST.json"), "w"), indent=1)
